@@ -14,7 +14,7 @@ run_demo() {
   else
     cp o2o-impl/src/tests.rs $T/tests.rs.bak
     cat "$m/demo.rs" >> o2o-impl/src/tests.rs
-    names=$(grep -oE "fn [a-z0-9_]+\(\)" "$m/demo.rs" | sed 's/fn //; s/()//' | head -5 | tr '\n' ' ')
+    names=$(grep -oE "fn [a-z0-9_]+\(" "$m/demo.rs" | sed "s/fn //; s/(//" | head -5 | tr '\n' ' ')
     cargo nextest run -p o2o-impl --features syn --offline --no-fail-fast $names >$T/demo.out 2>&1; rc=$?
     cp $T/tests.rs.bak o2o-impl/src/tests.rs
   fi
